@@ -204,13 +204,24 @@ def run_shard(ctx, K=None):
     ctx.extras["wide_graphs"] = wide
     # the same with 64..130 nodes (sparse padding): thresholds on node counts far above the usual sizes
     huge = 0
-    for _ in range(ctx.share({"quick": 64, "thorough": 1500}[ctx.tier])):
+    for _ in range(ctx.share({"quick": 480, "thorough": 4000}[ctx.tier])):
         core = gg.random_admg(rng, rng.choice([3, 4, 4, 5]))
         q = gq.random_query(rng, core)
         if q is None:
             continue
         gd, pad = gg.embed_wide(core, rng, rng.choice([64, 65, 100, 130]), p_di=0.02, p_bi=0.01)
         huge += 1
+        if huge % 2:
+            # many treatments: 21..40 of the (constant) padding nodes become parents of an outcome and are intervened on
+            # too, so that they stay in the graph through line 2 and the late nodes have dozens of predecessors
+            from ..refgraph import RG
+
+            y = rng.choice(q["Y"])
+            rgd = RG.make(gd["nodes"], [tuple(e) for e in gd["di"]], [])
+            desc = {str(v) for v in rgd.descendants_inclusive({y})}
+            extra = [w for w in pad if w not in desc][: rng.randint(21, 40)]
+            gd = dict(gd, di=gd["di"] + [[w, y] for w in extra if [w, y] not in gd["di"]])
+            q = dict(q, X=sorted(set(q["X"]) | set(extra)))
         run_case(ctx, gd, q, via=rng.choice(("outcomes", "identify")), cards={w: 1 for w in pad})
     ctx.extras["huge_graphs"] = huge
     # edit histories: the same graph object is queried, edited in place and queried again
